@@ -117,15 +117,17 @@ type SState struct {
 	Overlap      map[string]bool                      `json:"overlap,omitempty"`       // tasks whose record was being updated by a background transition (failure pause) while an operator request on the same task was in flight
 	SimSecs      float64                              `json:"sim_secs"`
 	// C04 on the whole server
-	DropSeen    map[string][2]int `json:"drop_seen,omitempty"`     // "target|collection|shard" -> (incarnation, step) at which the drop message was first delivered to a stream of that downstream
-	DropRecPrev map[string]bool   `json:"drop_rec_prev,omitempty"` // "target#ddl index" -> the drop-readiness record of that collection was in the store right before the step of the request
-	DDLSeen     []int             `json:"ddl_seen,omitempty"`      // per downstream: DDL records already looked at
-	DropSkipped map[string]bool   `json:"drop_skipped,omitempty"`  // "target|collection|shard" -> a resume dropped the drop message through the time filter of its seek
-	DownEvents  int               `json:"down_events,omitempty"`   // history events published while no incarnation was running
-	CatDropAt   map[string][2]int `json:"cat_drop_at,omitempty"`   // collection id -> (incarnation, step) at which the source catalog began to show it as dropping
-	PartialBar  map[string]bool   `json:"partial_bar,omitempty"`   // "target|partition id" -> the partition's barrier was sized while fewer than all shard streams of its collection were registered
-	PubAt       map[string][2]int `json:"pub_at,omitempty"`        // "p<partition id>" -> (incarnation, step) at which its drop message was published at the source
-	FirstReg    map[string][2]int `json:"first_reg,omitempty"`     // domain key -> (incarnation, step) of the first registration of that stream
+	DropSeenLast map[string][2]int `json:"drop_seen_last,omitempty"` // same key -> (incarnation, step) of the latest such delivery
+	DropSeen     map[string][2]int `json:"drop_seen,omitempty"`      // "target|collection|shard" -> (incarnation, step) at which the drop message was first delivered to a stream of that downstream
+	DropRecPrev  map[string]bool   `json:"drop_rec_prev,omitempty"`  // "target#ddl index" -> the drop-readiness record of that collection was in the store right before the step of the request
+	DDLSeen      []int             `json:"ddl_seen,omitempty"`       // per downstream: DDL records already looked at
+	DropSkipped  map[string]bool   `json:"drop_skipped,omitempty"`   // "target|collection|shard" -> a resume dropped the drop message through the time filter of its seek
+	DownEvents   int               `json:"down_events,omitempty"`    // history events published while no incarnation was running
+	CatDropAt    map[string][2]int `json:"cat_drop_at,omitempty"`    // collection id -> (incarnation, step) at which the source catalog began to show it as dropping
+	PartialBar   map[string]bool   `json:"partial_bar,omitempty"`    // "target|partition id" -> the partition's barrier was sized while fewer than all shard streams of its collection were registered
+	PubAt        map[string][2]int `json:"pub_at,omitempty"`         // "p<partition id>" -> (incarnation, step) at which its drop message was published at the source
+	Discarded    map[string][2]int `json:"discarded,omitempty"`      // "task|event type|collection|partition" -> (incarnation, step): reader event thrown away by the event loop (hook H19)
+	FirstReg     map[string][2]int `json:"first_reg,omitempty"`      // domain key -> (incarnation, step) of the first registration of that stream
 }
 
 // ------------------------------------------------------------------ rig
@@ -309,6 +311,8 @@ func RunRigS(t *testing.T, plan *Plan) {
 		if err := syscall.Dup2(int(f.Fd()), 1); err != nil {
 			HarnessFail(plan, "dup2: %v", err)
 		}
+	} else if os.Getenv("VERIF_SVCLOG") != "" {
+		cdclog.SetLevel(zapcore.InfoLevel) // debugging aid: the service's own log on stdout
 	} else {
 		cdclog.SetLevel(zapcore.FatalLevel)
 	}
@@ -458,6 +462,9 @@ func (r *RigS) loadState() {
 	r.deletedAt = map[string]int{}
 	if st.Tasks == nil {
 		st.Tasks = map[string]*SMTask{}
+	}
+	if st.DropSeenLast == nil {
+		st.DropSeenLast = map[string][2]int{}
 	}
 	if st.DropSeen == nil {
 		st.DropSeen = map[string][2]int{}
@@ -650,6 +657,16 @@ func (r *RigS) build() {
 	}
 	reader.VerifEventQueueCap = func() int { return sc.Knobs.EventCap }
 	server.VerifOrderedPositions = true
+	server.VerifEventDiscarded = func(task, typ string, coll, part int64) {
+		r.mu.Lock()
+		if r.st.Discarded == nil {
+			r.st.Discarded = map[string][2]int{}
+		}
+		r.st.Discarded[fmt.Sprintf("%s|%s|%d|%d", task, typ, coll, part)] = [2]int{r.plan.Incarnation, r.s.Step}
+		r.mu.Unlock()
+		r.s.Side("event loop discards %s of task %s (collection %d partition %d)", typ, task, coll, part)
+		r.s.Probe("S_event_discarded_" + typ)
+	}
 	doneCalls := map[string]int{}
 	reader.VerifHandlerOrder = SeededHandlerOrder(r.plan.Seed, r.plan.Incarnation)
 	reader.VerifPreferDone = func(site string) bool {
@@ -1407,6 +1424,7 @@ func (r *RigS) run() {
 										if _, seen := st.DropSeen[k]; !seen {
 											st.DropSeen[k] = [2]int{r.plan.Incarnation, s.Step}
 										}
+										st.DropSeenLast[k] = [2]int{r.plan.Incarnation, s.Step}
 									}
 								}
 							}
@@ -1427,7 +1445,7 @@ func (r *RigS) run() {
 			return as
 		}
 		if isReloaded() {
-			if st.HistPos < len(sc.History) {
+			if st.HistPos < len(sc.History) && (sc.History[st.HistPos].AfterOps == 0 || (st.OpPos >= sc.History[st.HistPos].AfterOps && !r.opBusy && r.atRest(as))) {
 				h := &sc.History[st.HistPos]
 				as = append(as, Action{Key: fmt.Sprintf("hist:%04d:%s", st.HistPos, h.K), Weight: 3, Run: func() {
 					r.applyHistory(h)
@@ -1436,10 +1454,29 @@ func (r *RigS) run() {
 			}
 			if !r.opBusy && st.OpPos < len(sc.Ops) {
 				idx := st.OpPos
-				as = append(as, Action{Key: fmt.Sprintf("api:%03d:%s", idx, sc.Ops[idx].K), Weight: 8, Run: func() {
-					st.OpPos++
-					r.startOp(idx)
-				}})
+				gate := sc.Ops[idx].Gate
+				isOpen, hold := r.gateState(&sc.Ops[idx], as)
+				if gate == "" || isOpen || st.HistPos >= len(sc.History) {
+					w := 8
+					if gate != "" && isOpen {
+						w = 60
+					}
+					as = append(as, Action{Key: fmt.Sprintf("api:%03d:%s", idx, sc.Ops[idx].K), Weight: w, Run: func() {
+						if gate != "" && isOpen {
+							s.Probe("S_request_in_" + gate)
+						}
+						st.OpPos++
+						r.startOp(idx)
+					}})
+				}
+				if hold {
+					// a slow downstream while the gated request waits for its window: requests are answered late
+					for i := range as {
+						if strings.HasPrefix(as[i].Key, "rel:ddl|") {
+							as[i].Weight = 1
+						}
+					}
+				}
 			}
 		}
 		if st.Crashes > 0 && s.Step > 5 {
@@ -1569,6 +1606,75 @@ func (r *RigS) run() {
 		os.Exit(1)
 	}
 	os.Exit(0)
+}
+
+// atRest: nothing of the service's set-up work is under way (no call to the source catalog, the downstream or the message
+// queue registration is parked, no watch event or message is waiting for delivery).
+func (r *RigS) atRest(as []Action) bool {
+	for _, a := range as {
+		for _, p := range []string{"rel:reg|", "rel:tq|", "rel:cat|", "rel:ddl|", "watch:", "mq:"} {
+			if strings.HasPrefix(a.Key, p) {
+				return false
+			}
+		}
+	}
+	return true
+}
+
+// gateState tells whether the window a gated request waits for is open, and whether the downstream is to be slow meanwhile
+// (the constellation the gate belongs to is under way: the partition's drop message is published, no drop request is out).
+func (r *RigS) gateState(op *SOp, as []Action) (open, hold bool) {
+	if op.Gate != "pdrop_window" {
+		return false, false
+	}
+	t := r.st.Tasks[op.Task]
+	if t == nil || t.Spec == nil {
+		return false, false
+	}
+	tgt := t.Spec.Target
+	for _, c := range r.sc.Colls {
+		for _, pname := range SortedKeys(c.Parts) {
+			pid := c.Parts[pname]
+			if _, pub := r.st.PubAt[fmt.Sprintf("p%d", pid)]; !pub {
+				continue
+			}
+			requested := false
+			for _, d := range r.st.SDK[tgt].DDL {
+				if d.Kind == "dropp" && d.DB == c.DB && d.Coll == c.Name && d.Part == pname {
+					requested = true
+				}
+			}
+			if requested {
+				continue
+			}
+			hold = true
+			all := true
+			for sh := 0; sh < c.Shard; sh++ {
+				seen, have := r.st.DropSeen[fmt.Sprintf("%d|%d|%d|p%d", tgt, c.ID, sh, pid)]
+				if !have || seen[0] != r.plan.Incarnation {
+					all = false
+				}
+			}
+			if all {
+				open = true
+			}
+		}
+	}
+	if open {
+		// ... and the event loop of the downstream is busy with a request while every announcement of the source catalog
+		// has been handed to the readers (whatever they produced waits in, or in front of, the event queue)
+		busy := false
+		for _, a := range as {
+			if strings.HasPrefix(a.Key, "rel:ddl|") {
+				busy = true
+			}
+			if strings.HasPrefix(a.Key, "watch:") {
+				return false, hold
+			}
+		}
+		open = busy
+	}
+	return open, hold
 }
 
 // ------------------------------------------------------------------ observation helpers
